@@ -415,3 +415,42 @@ func FieldOrderOK(t *TSpec, data []byte, cfg Cfg) error {
 	// byte; nothing further needed. Kept for explicit labelling.
 	return nil
 }
+
+// TopLevelFields parses the top level of a struct encoding and returns, per
+// field index, how many times it occurs and the total payload bytes.
+func TopLevelFields(t *TSpec, data []byte, cfg Cfg) (map[int]int, error) {
+	u := t.Under()
+	if u.Kind != KStruct {
+		return nil, werr("TopLevelFields: not a struct")
+	}
+	type fld struct {
+		t   *TSpec
+		opt string
+	}
+	byIndex := map[int]fld{}
+	for _, f := range u.Fields {
+		if idx, opt, ok := f.Enc(); ok {
+			byIndex[idx] = fld{f.Type, opt}
+		}
+	}
+	out := map[int]int{}
+	off := 0
+	for off < len(data) {
+		tag, n, err := readUvarintStrict(data[off:])
+		if err != nil {
+			return nil, err
+		}
+		idx, wt := int(tag>>3), int(tag&7)
+		f, ok := byIndex[idx]
+		if !ok {
+			return nil, werr("unknown field index %d", idx)
+		}
+		_, fn, err := canonFieldPayload(f.t, f.opt, wt, data[off+n:], cfg, nil, 0, false)
+		if err != nil {
+			return nil, werr("field %d: %v", idx, err)
+		}
+		out[idx]++
+		off += n + fn
+	}
+	return out, nil
+}
